@@ -212,6 +212,15 @@ class Response(object):
         self._reset_after = reset_after
         self.headers = headers or {}
 
+    def close(self):
+        pass
+
+    def __enter__(self):
+        return self
+
+    def __exit__(self, *a):
+        return False
+
     def raise_for_status(self):
         if self.status_code >= 400:
             raise SimHTTPError('%d for url %s' % (self.status_code, self.url))
